@@ -55,7 +55,7 @@ ConnectPkts(ver) ==
     : cl \in Cleans, ka \in KAs, rm \in ConnRMs, tam \in ConnTAMs, mps \in ConnMPSs, sei \in ConnSEIs }
 
 ConnackPkts(ver) ==
-  { Sized([Pk("connack", ver) EXCEPT !.sp = sp /\ rc = 0, !.rc = rc,
+  { Sized([Pk("connack", ver) EXCEPT !.sp = sp /\ rc = 0, !.rc = IF ver = "v311" /\ rc # 0 THEN 5 ELSE rc,   \* v3.1.1 return codes are 0..5
              !.rm = IF ver = "v50" /\ rc = 0 THEN V(rm) ELSE -1, !.tam = IF ver = "v50" /\ rc = 0 THEN V(tam) ELSE -1,
              !.mps = IF ver = "v50" /\ rc = 0 THEN V(mps) ELSE -1, !.sei = IF ver = "v50" /\ rc = 0 THEN V(sei) ELSE -1,
              !.ska = IF ver = "v50" /\ rc = 0 THEN V(ska) ELSE -1], 16)
@@ -90,7 +90,8 @@ PeerFrames(s, gh) ==
   LET v == Ver(s)
       ackPids == { e.pid : e \in gh.await } \cup ExtraPids
   IN
-  (IF "publish" \in PeerKinds THEN { p \in PublishPkts(v, InPids, s.idw) : WellFormedPublish(p) } ELSE {})
+  \* the peer may well send identifier 0 with QoS>0 (InPids may contain 0): only the topic/alias shape is kept sane
+  (IF "publish" \in PeerKinds THEN { p \in PublishPkts(v, InPids, s.idw) : p.topic # "" \/ p.alias # 0 } ELSE {})
   \cup UNION { { AckPkt(k, v, pid, rc, s.idw) : pid \in ackPids, rc \in (IF k = "pubrec" /\ v = "v50" THEN Rcs ELSE {0}) }
                : k \in PeerKinds \cap {"puback", "pubrec", "pubcomp"} }
   \cup UNION { { AckPkt(k, v, pid, 0, s.idw) : pid \in gh.sub \cup gh.unsub \cup ExtraPids } : k \in PeerKinds \cap {"suback", "unsuback"} }
@@ -142,7 +143,8 @@ EnvChoices(s, gh) ==
   \* the process dies: identifiers acquired but not yet used die with it, so crash points are taken where none is held
   \* ... and none where a QoS 2 exchange waits for the APPLICATION to send its PUBREL: that duty is application
   \* state, not part of the export (DESIGN.md, C16 reading)
-  \cup (IF Crash /\ gh.tr /\ gh.nconn >= 1 /\ gh.held = {} /\ ~(\E e \in gh.await : e.kind = "pubrel")
+  \* ... and only in persistent sessions (the property: "before reconnecting with the session present")
+  \cup (IF Crash /\ gh.tr /\ gh.nconn >= 1 /\ gh.held = {} /\ ~(\E e \in gh.await : e.kind = "pubrel") /\ gh.persistent
         THEN { Call("crash") } ELSE {})
   (* identifiers *)
   \cup (IF ~quiet /\ Cardinality(gh.held) < MaxHeld /\ Cardinality(gh.used) < MaxUsed THEN { Call("acquire") } ELSE {})
